@@ -1,2 +1,294 @@
-(* C10 — placeholder while the correspondence is being set up *)
-From AV Require Import Lib.Base Router.Pattern Router.Match Router.Path Router.ResourceDef Router.Quoter.
+(* C10 — Path patterns match exactly their language and capture exactly the matched text.
+   Only statements here; proofs live in Router/{MatchProofs,ResourceProofs,QuoterProofs}.v.
+
+   Model: Router/Pattern.v (pattern AST, regex fragment), Router/Match.v (our reading of the
+   `regex` crate on the regex `ResourceDef::parse` builds: [accepts] = is_match = "some match
+   exists", [m] = captures = leftmost-first greedy backtracking), Router/ResourceDef.v,
+   Router/Path.v (u16 arithmetic explicit), Router/Quoter.v.  Spec: Router/Spec.v.
+   Strings are ASCII byte strings.  [MAXSEG] = MAX_DYNAMIC_SEGMENTS of resource.rs. *)
+From AV Require Import Lib.Base Gen.Consts.
+From AV Require Import Router.Pattern Router.Match Router.Path Router.ResourceDef Router.Quoter
+  Router.Spec Router.MatchProofs Router.ResourceProofs Router.QuoterProofs.
+
+Definition MAXSEG := ROUTER_MAX_DYNAMIC_SEGMENTS.
+
+(* ------------------------------------------------------------------ 1. three ways of asking *)
+(* For every definition built by ResourceDef::new / ::prefix from a single pattern or a pattern
+   list (names distinct and non-empty, as the regex crate demands), and every Path whose u16
+   fields are in range: find_match, is_match and capture_match_info give the same verdict,
+   nothing panics, the matched length is what capture_match_info skips, and a failed match
+   leaves the Path untouched. *)
+Theorem C10_three_ways_agree : forall ps is_prefix rd pth,
+  wf_patterns ps -> construct MAXSEG ps is_prefix = Val rd -> path_ok pth ->
+  exists (o : option N) (pth' : path),
+    let s := unprocessed pth in
+    find_match rd s = Val o /\
+    is_match rd s = isSome o /\
+    capture_match_info MAXSEG rd pth = Val (isSome o, pth') /\
+    match o with
+    | Some n => (N.to_nat n <= length s)%nat /\ path_ok pth' /\
+                unprocessed pth' = skipn (N.to_nat n) s /\ p_path pth' = p_path pth
+    | None => pth' = pth
+    end.
+Proof. intros ps pre rd pth WF C OK. exact (three_ways_agree MAXSEG ps pre rd pth WF C OK). Qed.
+
+(* ---------------------------------------------- 2. the matcher against the pattern's language *)
+(* is_match on the compiled regex holds exactly when some prefix of the path is an instance of
+   the pattern ending where the suffix rule allows ($ / (/|$) / anywhere after a tail) *)
+Theorem C10_is_match_iff_language : forall is_prefix p s,
+  re_is_match (compile is_prefix p) s = true <-> exists n ws, Matches is_prefix p s n ws.
+Proof.
+  intros pre p s. split; [apply is_match_sound|]. intros (n & ws & M). eapply is_match_complete; exact M.
+Qed.
+
+(* captures succeeds exactly when is_match does, and what it returns is an instance of the
+   pattern: group 1 = the matched prefix, the named groups = the byte spans of the segments'
+   words *)
+Theorem C10_captures_sound : forall is_prefix p s cs,
+  re_captures (compile is_prefix p) s = Some cs ->
+  exists n ws, Matches is_prefix p s n ws /\ cs = spans 0 (p_segs p) ws ++ [(group1, 0%nat, n)].
+Proof. exact captures_sound. Qed.
+
+Theorem C10_captures_complete : forall is_prefix p s n ws,
+  Matches is_prefix p s n ws -> exists cs, re_captures (compile is_prefix p) s = Some cs.
+Proof. exact captures_complete. Qed.
+
+(* leftmost-first = greedy priority: what `captures` returns is the replay ([exec]) of the
+   lexicographically GREATEST tuple of repetition counts among all the ways the regex can match
+   ([Run]): every quantified class takes as much as it can, earlier ones having priority *)
+Theorem C10_leftmost_greedy : forall its s pos oa cs res,
+  m its s pos oa cs = Some res ->
+  exists ks, Run its s ks /\ exec its s ks pos oa cs = Some res /\
+             forall ks', Run its s ks' -> lex_le ks' ks.
+Proof. exact m_leftmost_greedy. Qed.
+
+(* one dynamic pattern through the ResourceDef API *)
+Theorem C10_find_match_sound : forall is_prefix p rd s n,
+  wf_pattern p -> is_static p = false -> construct MAXSEG (Single p) is_prefix = Val rd ->
+  find_match rd s = Val (Some n) -> exists ws, Matches is_prefix p s (N.to_nat n) ws.
+Proof. exact (find_match_dynamic_sound MAXSEG). Qed.
+
+Theorem C10_find_match_complete : forall is_prefix p rd s n ws,
+  wf_pattern p -> is_static p = false -> construct MAXSEG (Single p) is_prefix = Val rd ->
+  Matches is_prefix p s n ws -> exists n', find_match rd s = Val (Some n') /\ is_match rd s = true.
+Proof. exact (find_match_dynamic_complete MAXSEG). Qed.
+
+(* static text matches itself and nothing else (a prefix resource: itself followed by the end of
+   the path or by '/') *)
+Theorem C10_static_matches_itself : forall is_prefix p rd s,
+  is_static p = true -> construct MAXSEG (Single p) is_prefix = Val rd ->
+  (is_match rd s = true <->
+   exists rem, s = pattern_text p ++ rem /\
+     (if is_prefix then rem = [] \/ (exists t, rem = 47 :: t) else rem = [])) /\
+  (is_match rd s = true -> find_match rd s = Val (Some (lenN (pattern_text p)))).
+Proof. exact (static_matches_itself MAXSEG). Qed.
+
+(* the default dynamic segment matches a non-empty run without '/' *)
+Theorem C10_default_segment : forall is_prefix p s n ws nm w,
+  wf_pattern p -> Matches is_prefix p s n ws ->
+  In (SVar nm default_re) (p_segs p) -> In (nm, w) (values (p_segs p) ws) ->
+  w <> [] /\ ~ In 47 w.
+Proof. exact default_segment_value. Qed.
+
+(* prefix resources stop only at a segment boundary; full resources match all or nothing *)
+Theorem C10_prefix_boundary : forall p rd s n,
+  wf_pattern p -> p_tail p = false -> construct MAXSEG (Single p) true = Val rd ->
+  find_match rd s = Val (Some n) ->
+  N.to_nat n = length s \/ nth_error s (N.to_nat n) = Some 47.
+Proof. exact (prefix_boundary MAXSEG). Qed.
+
+Theorem C10_full_match_is_total : forall p rd s n,
+  wf_pattern p -> p_tail p = false -> construct MAXSEG (Single p) false = Val rd ->
+  find_match rd s = Val (Some n) -> N.to_nat n = length s.
+Proof. exact (full_match_is_total MAXSEG). Qed.
+
+(* ------------------------------------------------------- 3. captured values are substrings *)
+(* a successful capture_match_info with one dynamic pattern appends, for every dynamic segment,
+   the u16 offsets of its word; reading them back (`Path::iter`, slicing the path at the stored
+   offsets) yields the earlier parameters followed by exactly the words of the decomposition;
+   and building the pattern from those values gives back the matched prefix *)
+Theorem C10_captures_are_substrings : forall is_prefix p rd pth pth',
+  wf_pattern p -> is_static p = false -> construct MAXSEG (Single p) is_prefix = Val rd ->
+  path_ok pth -> capture_match_info MAXSEG rd pth = Val (true, pth') ->
+  exists n ws,
+    Matches is_prefix p (unprocessed pth) n ws /\
+    find_match rd (unprocessed pth) = Val (Some (N.of_nat n)) /\
+    path_iter pth' = rbind (path_iter pth) (fun old => Val (old ++ values (p_segs p) ws)) /\
+    resource_path_from_iter rd (map snd (values (p_segs p) ws)) = (true, firstn n (unprocessed pth)).
+Proof.
+  intros pre p rd pth pth' WF NS C OK H.
+  destruct (capture_single_dynamic MAXSEG pre p rd pth pth' WF NS C OK H) as (n & ws & Cp & FM).
+  exists n, ws. pose proof Cp as (M & _). split; [exact M|]. split; [exact FM|]. split.
+  - exact (captured_values pre p pth n ws pth' OK Cp).
+  - cbn [construct] in C. unfold parse in C. rewrite NS in C. cbn [negb andb] in C.
+    destruct (MAXSEG <? lenN (var_names (p_segs p))); [discriminate|]. cbn [rbind fst snd] in C.
+    inversion C. unfold resource_path_from_iter. cbn [rd_segments]. eapply rebuild_matched_prefix. exact M.
+Qed.
+
+(* any constructed definition (static, dynamic, pattern list): a successful capture is a match
+   of ONE member pattern -- for a list the FIRST member that matches at all -- it skips exactly
+   the matched length and appends exactly that member's segment spans, shifted by the old skip
+   ([captured]); this is the interface the routing property C09 builds on *)
+Theorem C10_capture_detailed : forall ps is_prefix rd pth pth',
+  wf_patterns ps -> construct MAXSEG ps is_prefix = Val rd -> path_ok pth ->
+  capture_match_info MAXSEG rd pth = Val (true, pth') ->
+  exists idx p n ws,
+    nth_error (members ps) idx = Some p /\
+    (Matches is_prefix p (unprocessed pth) n ws /\
+     pth' = mkPath (p_path pth) (p_skip pth + N.of_nat n)
+                   (p_segments pth ++ map (shift_item (p_skip pth)) (spans 0 (p_segs p) ws))) /\
+    (forall j q, (j < idx)%nat -> nth_error (members ps) j = Some q ->
+                 forall n' ws', ~ Matches is_prefix q (unprocessed pth) n' ws').
+Proof. exact (capture_detailed MAXSEG). Qed.
+
+(* ---------------------------------------------------------------------------- 4. round trip *)
+(* FULL STATEMENT (false in general, see the counter-example below): for every pattern and
+   values in the segments' languages, matching the built path returns those values.
+   Proved: for full, non-tail patterns that are DELIMITED (every dynamic segment is followed by
+   the end of the pattern or by constant text whose first byte its language excludes). *)
+Theorem C10_roundtrip : forall p ws rd,
+  wf_pattern p -> is_static p = false -> p_tail p = false ->
+  delimited (fun _ => true) (p_segs p) = true ->
+  decomp (p_segs p) ws -> lenN (concat ws) <= u16_max ->
+  construct MAXSEG (Single p) false = Val rd ->
+  resource_path_from_iter rd (map snd (values (p_segs p) ws)) = (true, concat ws) /\
+  exists pth', capture_match_info MAXSEG rd (path_new (concat ws)) = Val (true, pth') /\
+    path_iter pth' = Val (values (p_segs p) ws) /\ unprocessed pth' = [].
+Proof. exact (roundtrip MAXSEG). Qed.
+
+(* "/{a}-{b}" built from a = "x", b = "y-z" is "/x-y-z", which matches back as a = "x-y",
+   b = "z": without the delimiter hypothesis the round trip fails for any matcher *)
+Definition pat_ab : pattern :=
+  mkPattern [SConst [47]; SVar [97] default_re; SConst [45]; SVar [98] default_re] false.
+
+Theorem C10_roundtrip_needs_delimiter :
+  exists p ws rd pth',
+    wf_pattern p /\ decomp (p_segs p) ws /\ construct MAXSEG (Single p) false = Val rd /\
+    capture_match_info MAXSEG rd (path_new (concat ws)) = Val (true, pth') /\
+    path_iter pth' <> Val (values (p_segs p) ws).
+Proof.
+  exists pat_ab, [[47]; [120]; [45]; [121; 45; 122]].
+  eexists. eexists. split; [|split; [|split; [vm_compute; reflexivity | split; [vm_compute; reflexivity|]]]].
+  - split; cbn; [repeat constructor; cbn; intuition discriminate | intuition discriminate].
+  - repeat constructor; apply default_re_lang; split; (discriminate || reflexivity).
+  - vm_compute. discriminate.
+Qed.
+
+(* ------------------------------------------------------------------------- 5. u16 offsets *)
+(* `Path::new` on a path shorter than 2^16 bytes satisfies [path_ok]; by C10_three_ways_agree
+   every capture then keeps it, no `as u16` conversion truncates and no u16 addition overflows
+   (no Panic), and by C10_captures_are_substrings `get`/`iter` return the captured words *)
+Theorem C10_u16_offsets : forall s, lenN s <= u16_max -> path_ok (path_new s) /\ unprocessed (path_new s) = s.
+Proof.
+  intros s H. split; [split; cbn [path_new p_skip p_path]; [lia | exact H]|].
+  unfold unprocessed, path_new. cbn [p_skip p_path]. rewrite N.min_l by lia. reflexivity.
+Qed.
+
+(* beyond the limit the matched length is truncated: on "/" ++ "c"*65536 the pattern "/{a}"
+   matches all 65537 bytes (find_match), but capture_match_info skips 65537 mod 2^16 = 1 *)
+Theorem C10_u16_truncates_beyond_limit :
+  let p := mkPattern [SConst [47]; SVar [97] default_re] false in
+  let s := 47 :: repeat 99 (N.to_nat 65536) in
+  match construct MAXSEG (Single p) false with
+  | Val rd =>
+      find_match rd s = Val (Some 65537) /\
+      match capture_match_info MAXSEG rd (path_new s) with
+      | Val (true, pth') => p_skip pth' = 1 /\ lenN (unprocessed pth') = 65536
+      | _ => False
+      end
+  | Panic => False
+  end.
+Proof. vm_compute. split; [reflexivity | split; reflexivity]. Qed.
+
+(* ------------------------------------------------------------------------------ 6. requote *)
+(* for every protected set accepted by Quoter::new (ASCII): requote is the left-to-right
+   reference decoder; None exactly when nothing was decoded; a decoded result is strictly
+   shorter *)
+Theorem C10_requote_exact : forall prot q s,
+  quoter_new prot = Val q ->
+  match requote q s with
+  | None => spec_decode prot s = s
+  | Some d => d = spec_decode prot s /\ (length d < length s)%nat
+  end.
+Proof.
+  intros prot q s H. unfold quoter_new in H. destruct (forallb (fun ch => ch <? 128) prot) eqn:E; [|discriminate].
+  inversion H; subst q. exact (requote_exact prot E s).
+Qed.
+
+Theorem C10_requote_never_lengthens : forall prot q s,
+  quoter_new prot = Val q -> (length (requote_full q s) <= length s)%nat.
+Proof.
+  intros prot q s H. unfold quoter_new in H. destruct (forallb (fun ch => ch <? 128) prot) eqn:E; [|discriminate].
+  inversion H; subst q. rewrite (requote_full_spec prot E). apply spec_decode_length; exact E.
+Qed.
+
+(* a decodable escape is replaced by its byte and decoding resumes after it: "%2541" -> "%41" *)
+Theorem C10_requote_no_double_decode : forall prot q p1 p2 rem,
+  quoter_new prot = Val q -> is_hex p1 = true -> is_hex p2 = true ->
+  existsb (fun x => x =? hex_val p1 * 16 + hex_val p2) prot = false ->
+  requote_full q (37 :: p1 :: p2 :: rem) = (hex_val p1 * 16 + hex_val p2) :: requote_full q rem.
+Proof.
+  intros prot q p1 p2 rem H H1 H2 H3. unfold quoter_new in H.
+  destruct (forallb (fun ch => ch <? 128) prot) eqn:E; [|discriminate]. inversion H; subst q.
+  rewrite !(requote_full_spec prot E). apply no_double_decode; assumption.
+Qed.
+
+(* the number of occurrences of a protected byte (other than '%' and the hex digits, whose
+   occurrences inside escapes necessarily disappear) is unchanged, and decoding never crosses
+   such a byte: with '/' protected the segment structure of a path is preserved *)
+Theorem C10_requote_preserves_protected : forall prot q x s,
+  quoter_new prot = Val q -> In x prot -> x <> 37 -> is_hex x = false ->
+  count_occ N.eq_dec (requote_full q s) x = count_occ N.eq_dec s x.
+Proof.
+  intros prot q x s H I N37 NH. unfold quoter_new in H.
+  destruct (forallb (fun ch => ch <? 128) prot) eqn:E; [|discriminate]. inversion H; subst q.
+  rewrite (requote_full_spec prot E). apply protected_count_preserved; assumption.
+Qed.
+
+Theorem C10_requote_splits_at_protected : forall prot q x a b,
+  quoter_new prot = Val q -> In x prot -> x <> 37 -> is_hex x = false ->
+  requote_full q (a ++ x :: b) = requote_full q a ++ x :: requote_full q b.
+Proof.
+  intros prot q x a b H I N37 NH. unfold quoter_new in H.
+  destruct (forallb (fun ch => ch <? 128) prot) eqn:E; [|discriminate]. inversion H; subst q.
+  rewrite !(requote_full_spec prot E). apply decode_splits_at_protected; assumption.
+Qed.
+
+(* ------------------------------------------------------------------------------ non-vacuity *)
+(* "/user/{id}/x" as a prefix on "/user/ab/x/z": matched length 10, id = "ab", rest "/z" *)
+Example C10_example_prefix :
+  let p := mkPattern [SConst [47;117;115;101;114;47]; SVar [105;100] default_re; SConst [47;120]] false in
+  let s := [47;117;115;101;114;47;97;98;47;120;47;122] in
+  wf_pattern p /\ path_ok (path_new s) /\
+  exists rd pth', construct MAXSEG (Single p) true = Val rd /\
+    find_match rd s = Val (Some 10) /\ is_match rd s = true /\
+    capture_match_info MAXSEG rd (path_new s) = Val (true, pth') /\
+    path_iter pth' = Val [([105;100], [97;98])] /\ unprocessed pth' = [47;122] /\
+    Matches true p s 10 [[47;117;115;101;114;47]; [97;98]; [47;120]].
+Proof.
+  cbv zeta. split; [split; cbn; [repeat constructor; intuition | intuition discriminate]|].
+  split; [split; vm_compute; discriminate|].
+  eexists. eexists. split; [vm_compute; reflexivity|]. split; [vm_compute; reflexivity|].
+  split; [vm_compute; reflexivity|]. split; [vm_compute; reflexivity|].
+  split; [vm_compute; reflexivity|]. split; [vm_compute; reflexivity|].
+  split; [|split; [reflexivity | split; [cbn; lia | right; reflexivity]]].
+  repeat constructor. apply default_re_lang. split; [discriminate | reflexivity].
+Qed.
+
+(* a pattern list, its second member matching; a delimited pattern; the default quoter *)
+Example C10_example_misc :
+  (let ps := PList [mkPattern [SConst [47;97]] false;
+                    mkPattern [SConst [47]; SVar [120] [ACls CDigit QPlus]] false] in
+   exists rd pth', construct MAXSEG ps false = Val rd /\ wf_patterns ps /\
+     find_match rd [47;50;49] = Val (Some 3) /\
+     capture_match_info MAXSEG rd (path_new [47;50;49]) = Val (true, pth') /\
+     path_iter pth' = Val [([120], [50;49])]) /\
+  delimited (fun _ => true) [SConst [47]; SVar [97] default_re; SConst [47;120]; SVar [98] [ACls CDigit QPlus]] = true /\
+  (exists q, quoter_new [37;47;43] = Val q /\
+     requote q [47;97;37;50;53;52;49;37;50;70;37;52;49] = Some [47;97;37;50;53;52;49;37;50;70;65]).
+Proof.
+  split; [|split; [reflexivity | eexists; split; vm_compute; reflexivity]].
+  cbv zeta. eexists. eexists. split; [vm_compute; reflexivity|]. split.
+  - repeat constructor; cbn; intuition discriminate.
+  - split; [vm_compute; reflexivity|]. split; vm_compute; reflexivity.
+Qed.
